@@ -166,6 +166,67 @@ def scen_cache(a, b, kw):
     return devs
 
 
+def scen_shared_state(a, gap, which):
+    """objects built from one configured decorator (or two batchers built the same way) share nothing"""
+    global LAST_INFO
+    devs = []
+    out = {}
+    if which == 0:
+        deco = M.threadsafe_async_cache()
+
+        async def f(x):
+            return ('f', x)
+
+        async def g(x):
+            return ('g', x)
+        cf, cg = deco(f), deco(g)
+
+        async def main():
+            va = V(a)
+            out['f'] = await cf(va)
+            out['g'] = await cg(va)
+        outcome, _ = vloop.run(main)
+        if outcome[0] != 'ok':
+            devs.append('calls-' + outcome[0])
+        elif out.get('f', ('', 0))[0] != 'f' or out.get('g', ('', 0))[0] != 'g':
+            devs.append('functions-decorated-by-one-configured-decorator-share-a-cache')
+    else:
+        def mkf(tag):
+            async def bf(batch):
+                batch = list(batch)
+                await aio.sleep(2)
+                for k, v in batch:
+                    yield k, (tag, k, v)
+            return bf
+        if which == 1:
+            d1 = M.async_background_batcher(max_batch_size=2, batch_timeout=3)(mkf('one'))
+            d2 = M.async_background_batcher(max_batch_size=2, batch_timeout=3)(mkf('two'))
+        else:
+            d1 = d2 = None
+
+        async def main():
+            loop = aio.get_running_loop()
+            b1 = d1 or M.AsyncBackgroundBatcher(mkf('one'), max_batch_size=2, batch_timeout=3)
+            b2 = d2 or M.AsyncBackgroundBatcher(mkf('two'), max_batch_size=2, batch_timeout=3)
+
+            async def c1():
+                out['one'] = await b1(7)
+
+            async def c2():
+                if gap > 0:
+                    await aio.sleep(gap)
+                out['two'] = await b2(7)
+            await aio.gather(loop.create_task(c1()), loop.create_task(c2()))
+        outcome, _ = vloop.run(main)
+        if outcome[0] != 'ok':
+            devs.append('calls-' + ('never-complete' if outcome[0] == 'hang' else outcome[0]))
+        elif out.get('one', ('',))[0] != 'one' or out.get('two', ('',))[0] != 'two':
+            devs.append('two-batchers-share-pending-requests')
+    if not tracing():
+        LAST_INFO = {'which': which, 'gap': gap, 'out': repr(out)}
+    return devs
+
+
 def scen_loops(nloops, gaps, bt, keep_loops, form):
     """a decorated batcher (decorated outside any loop) used from successive event loops."""
     global LAST_INFO
@@ -263,6 +324,9 @@ def cells(prop, tier):
                     pre=['len(pauses) == 1 and 0 <= pauses[0] <= 20 and 3 <= t <= 15 and 0 <= dur <= 20 and len(fails) == 1'],
                     body="H.scen_buffer('cpW', pauses, t, dur, fails)", tier=q, timeout=400, family='buffer', weight=3))
     out.append(Cell(name='c15_cache', sig='a: int, b: int, kw: bool', pre=['True'], body='H.scen_cache(a, b, kw)', tier=q, timeout=200, family='cache'))
+    for which in range(3):
+        out.append(Cell(name='c15_shared_state_%d' % which, sig='a: int, gap: int', pre=['0 <= gap <= 8'],
+                        body='H.scen_shared_state(a, gap, %d)' % which, tier=q, timeout=200, family='shared'))
     for form in ('options', 'direct'):
         for keep in (True, False):
             out.append(Cell(name='c15_loops_%s_%s' % (form, 'kept' if keep else 'dropped'), sig='nloops: int, gaps: List[int], bt: int',
